@@ -9,12 +9,12 @@ theorem of C18 for every source string.
 -/
 namespace Vy
 
-def VQ (t : Token) : Prop := vtokOK t = true
+def VQ (q : Token → Bool) (t : Token) : Prop := q t = true
 
-theorem mapE_vtok (f : List Token → Except Err (List Structure))
-    (hf : ∀ b r, AllQ VQ b → f b = .ok r → vtokL r = true) :
-    ∀ (bs : List (List Token)) (rs : List (List Structure)), (∀ b ∈ bs, AllQ VQ b) → mapE f bs = .ok rs → vtokLL rs = true
-  | [], rs, _, h => by simp [mapE] at h; subst h; simp [vtokLL]
+theorem mapE_allTok (q : Token → Bool) (f : List Token → Except Err (List Structure))
+    (hf : ∀ b r, AllQ (VQ q) b → f b = .ok r → allTokL q r = true) :
+    ∀ (bs : List (List Token)) (rs : List (List Structure)), (∀ b ∈ bs, AllQ (VQ q) b) → mapE f bs = .ok rs → allTokLL q rs = true
+  | [], rs, _, h => by simp [mapE] at h; subst h; simp [allTokLL]
   | b :: bs, rs, hb, h => by
       simp only [mapE] at h
       cases h1 : f b with
@@ -24,39 +24,39 @@ theorem mapE_vtok (f : List Token → Except Err (List Structure))
         | error e => simp [h1, h2, bind, Except.bind] at h
         | ok rs' =>
           simp [h1, h2, bind, Except.bind, pure, Except.pure] at h; subst h
-          simp only [vtokLL, Bool.and_eq_true]
-          exact ⟨hf b r (hb b (by simp)) h1, mapE_vtok f hf bs rs' (fun x hx => hb x (by simp [hx])) h2⟩
+          simp only [allTokLL, Bool.and_eq_true]
+          exact ⟨hf b r (hb b (by simp)) h1, mapE_allTok q f hf bs rs' (fun x hx => hb x (by simp [hx])) h2⟩
 
-theorem allQ_getLast (bs : List (List Token)) (h : ∀ b ∈ bs, AllQ VQ b) : AllQ VQ (bs.getLast?.getD []) := by
+theorem allQ_getLast (q : Token → Bool) (bs : List (List Token)) (h : ∀ b ∈ bs, AllQ (VQ q) b) : AllQ (VQ q) (bs.getLast?.getD []) := by
   cases hl : bs.getLast? with
   | none => intro x hx; simp at hx
   | some l => exact h l (List.mem_of_getLast? hl)
 
-theorem allQ_head (bs : List (List Token)) (h : ∀ b ∈ bs, AllQ VQ b) : AllQ VQ (bs.head?.getD []) := by
+theorem allQ_head (q : Token → Bool) (bs : List (List Token)) (h : ∀ b ∈ bs, AllQ (VQ q) b) : AllQ (VQ q) (bs.head?.getD []) := by
   cases hl : bs.head? with
   | none => intro x hx; simp at hx
   | some l => exact h l (List.mem_of_head? hl)
 
 /-- what `buildS` builds from branches of good tokens, given a recursive parser that preserves them -/
-theorem buildS_vtok (p : List Token → Parent → Except Err (List Structure))
-    (hp : ∀ ts par r, AllQ VQ ts → p ts par = .ok r → vtokL r = true) (par cls : Parent) (branches : List (List Token))
-    (hb : ∀ b ∈ branches, AllQ VQ b) (s : Structure) (h : buildS p par cls branches = .ok s) : vtokS s = true := by
-  have hlast := allQ_getLast branches hb
-  have hhead := allQ_head branches hb
+theorem buildS_allTok (q : Token → Bool) (hlo : ∀ k, q ⟨.general, lamOpKey k⟩ = true) (p : List Token → Parent → Except Err (List Structure))
+    (hp : ∀ ts par r, AllQ (VQ q) ts → p ts par = .ok r → allTokL q r = true) (par cls : Parent) (branches : List (List Token))
+    (hb : ∀ b ∈ branches, AllQ (VQ q) b) (s : Structure) (h : buildS p par cls branches = .ok s) : allTokS q s = true := by
+  have hlast := allQ_getLast q branches hb
+  have hhead := allQ_head q branches hb
   unfold buildS at h
   cases cls
   case forS =>
     simp only at h
     cases h1 : p (branches.getLast?.getD []) .forS with
     | error e => simp [h1, bind, Except.bind] at h
-    | ok body => simp [h1, bind, Except.bind, pure, Except.pure] at h; subst h; simpa [vtokS] using hp _ _ _ hlast h1
+    | ok body => simp [h1, bind, Except.bind, pure, Except.pure] at h; subst h; simpa [allTokS] using hp _ _ _ hlast h1
   case whileS =>
     simp only at h
     by_cases hlen : branches.length = 1
     · simp only [hlen, if_true] at h
       cases h1 : p (branches.getLast?.getD []) .whileS with
       | error e => simp [h1, bind, Except.bind, pure, Except.pure] at h
-      | ok body => simp [h1, bind, Except.bind, pure, Except.pure] at h; subst h; simpa [vtokS] using hp _ _ _ hlast h1
+      | ok body => simp [h1, bind, Except.bind, pure, Except.pure] at h; subst h; simpa [allTokS] using hp _ _ _ hlast h1
     · simp only [hlen, if_false] at h
       cases h0 : p (branches.head?.getD []) .whileS with
       | error e => simp [h0, bind, Except.bind] at h
@@ -65,110 +65,110 @@ theorem buildS_vtok (p : List Token → Parent → Except Err (List Structure))
         | error e => simp [h0, h1, bind, Except.bind, pure, Except.pure] at h
         | ok body =>
           simp [h0, h1, bind, Except.bind, pure, Except.pure] at h; subst h
-          simp [vtokS, hp _ _ _ hhead h0, hp _ _ _ hlast h1]
+          simp [allTokS, hp _ _ _ hhead h0, hp _ _ _ hlast h1]
   case fnCall =>
     simp only at h
     by_cases hlen : branches.length > 1
     · simp only [hlen, if_true] at h
       cases h1 : p (branches.getLast?.getD []) .fnCall with
       | error e => simp [h1, bind, Except.bind] at h
-      | ok body => simp [h1, bind, Except.bind, pure, Except.pure] at h; subst h; simpa [vtokS] using hp _ _ _ hlast h1
+      | ok body => simp [h1, bind, Except.bind, pure, Except.pure] at h; subst h; simpa [allTokS] using hp _ _ _ hlast h1
     · simp only [hlen, if_false] at h
       split at h
       · simp at h
-      · simp [pure, Except.pure] at h; subst h; simp [vtokS]
+      · simp [pure, Except.pure] at h; subst h; simp [allTokS]
   case lam =>
     simp only at h
     by_cases hlen : branches.length = 1
     · simp only [hlen, if_true] at h
       cases h1 : p (branches.getLast?.getD []) .lam with
       | error e => simp [h1, bind, Except.bind, pure, Except.pure] at h
-      | ok body => simp [h1, bind, Except.bind, pure, Except.pure] at h; subst h; simpa [vtokS] using hp _ _ _ hlast h1
+      | ok body => simp [h1, bind, Except.bind, pure, Except.pure] at h; subst h; simpa [allTokS] using hp _ _ _ hlast h1
     · simp only [hlen, if_false] at h
       cases ha : lambdaArity (branches.head?.getD []) with
       | error e => simp [ha, bind, Except.bind] at h
       | ok a =>
         cases h1 : p (branches.getLast?.getD []) .lam with
         | error e => simp [ha, h1, bind, Except.bind, pure, Except.pure] at h
-        | ok body => simp [ha, h1, bind, Except.bind, pure, Except.pure] at h; subst h; simpa [vtokS] using hp _ _ _ hlast h1
+        | ok body => simp [ha, h1, bind, Except.bind, pure, Except.pure] at h; subst h; simpa [allTokS] using hp _ _ _ hlast h1
   case lmap =>
     simp only at h
     cases h1 : p (branches.head?.getD []) .lmap with
     | error e => simp [h1, bind, Except.bind] at h
-    | ok body => simp [h1, bind, Except.bind, pure, Except.pure] at h; subst h; simpa [vtokS] using hp _ _ _ hhead h1
+    | ok body => simp [h1, bind, Except.bind, pure, Except.pure] at h; subst h; simp [allTokS, hp _ _ _ hhead h1, hlo]
   case lfilter =>
     simp only at h
     cases h1 : p (branches.head?.getD []) .lfilter with
     | error e => simp [h1, bind, Except.bind] at h
-    | ok body => simp [h1, bind, Except.bind, pure, Except.pure] at h; subst h; simpa [vtokS] using hp _ _ _ hhead h1
+    | ok body => simp [h1, bind, Except.bind, pure, Except.pure] at h; subst h; simp [allTokS, hp _ _ _ hhead h1, hlo]
   case lsort =>
     simp only at h
     cases h1 : p (branches.head?.getD []) .lsort with
     | error e => simp [h1, bind, Except.bind] at h
-    | ok body => simp [h1, bind, Except.bind, pure, Except.pure] at h; subst h; simpa [vtokS] using hp _ _ _ hhead h1
+    | ok body => simp [h1, bind, Except.bind, pure, Except.pure] at h; subst h; simp [allTokS, hp _ _ _ hhead h1, hlo]
   case listS =>
     simp only at h
     cases h1 : mapE (fun b => p b (passParent par .listS)) branches with
     | error e => simp [h1, bind, Except.bind] at h
     | ok bs =>
       simp [h1, bind, Except.bind, pure, Except.pure] at h; subst h
-      simpa [vtokS] using mapE_vtok _ (fun b r hq hr => hp b _ r hq hr) branches bs hb h1
+      simpa [allTokS] using mapE_allTok q _ (fun b r hq hr => hp b _ r hq hr) branches bs hb h1
   all_goals
     simp only [bind, Except.bind, pure, Except.pure] at h
     split at h
     · simp at h
     · rename_i v hv
       simp at h; subst h
-      simpa [vtokS] using mapE_vtok _ (fun b r hq hr => hp b _ r hq hr) branches v hb hv
+      simpa [allTokS] using mapE_allTok q _ (fun b r hq hr => hp b _ r hq hr) branches v hb hv
 
-theorem vq_of_all {t : Token} {ts : List Token} (h : AllQ VQ (t :: ts)) : VQ t ∧ AllQ VQ ts :=
+theorem vq_of_all {q : Token → Bool} {t : Token} {ts : List Token} (h : AllQ (VQ q) (t :: ts)) : VQ q t ∧ AllQ (VQ q) ts :=
   ⟨h t (by simp), fun x hx => h x (by simp [hx])⟩
 
 /-- **the parser only puts tokens of its input into the tree** -/
-theorem parse_vtok : ∀ (n : Nat) (ts : List Token) (par : Parent) (tree : List Structure),
-    AllQ VQ ts → parse n ts par = .ok tree → vtokL tree = true := by
+theorem parse_allTok (q : Token → Bool) (hlo : ∀ k, q ⟨.general, lamOpKey k⟩ = true) : ∀ (n : Nat) (ts : List Token) (par : Parent) (tree : List Structure),
+    AllQ (VQ q) ts → parse n ts par = .ok tree → allTokL q tree = true := by
   intro n
   induction n with
   | zero => intro ts par tree _ h; simp [parse] at h
   | succ n ih =>
     intro ts par tree hq h
     cases ts with
-    | nil => simp [parse] at h; subst h; simp [vtokL]
+    | nil => simp [parse] at h; subst h; simp [allTokL]
     | cons t ts =>
       obtain ⟨ht, hts⟩ := vq_of_all hq
       -- the two shapes every case reduces to: a head structure followed by a recursive parse of good tokens
-      have cons_ok : ∀ (s : Structure) (rest : List Token) (p' : Parent), vtokS s = true → AllQ VQ rest →
-          ∀ tree', (do let r ← parse n rest p'; pure (s :: r)) = Except.ok tree' → vtokL tree' = true := by
+      have cons_ok : ∀ (s : Structure) (rest : List Token) (p' : Parent), allTokS q s = true → AllQ (VQ q) rest →
+          ∀ tree', (do let r ← parse n rest p'; pure (s :: r)) = Except.ok tree' → allTokL q tree' = true := by
         intro s rest p' hs hr tree' h'
         cases h1 : parse n rest p' with
         | error e => simp [h1, bind, Except.bind] at h'
         | ok r =>
           simp [h1, bind, Except.bind, pure, Except.pure] at h'; subst h'
-          simp [vtokL, hs, ih rest p' r hr h1]
+          simp [allTokL, hs, ih rest p' r hr h1]
       simp only [parse] at h
       cases hg : t.isGen1 with
       | none =>
         simp only [hg] at h
-        exact cons_ok (.generic t) ts par (by simp only [vtokS]; exact ht) hts tree h
+        exact cons_ok (.generic t) ts par (by simp only [allTokS]; exact ht) hts tree h
       | some ch =>
         simp only [hg] at h
         by_cases hX : ch = cX
         · simp only [hX, if_true] at h
-          exact cons_ok (.brk par) ts par (by simp [vtokS]) hts tree h
+          exact cons_ok (.brk par) ts par (by simp [allTokS]) hts tree h
         · simp only [hX, if_false] at h
           by_cases hx : ch = cx
           · simp only [hx, if_true] at h
-            exact cons_ok (.recurse par) ts par (by simp [vtokS]) hts tree h
+            exact cons_ok (.recurse par) ts par (by simp [allTokS]) hts tree h
           · simp only [hx, if_false] at h
             cases ho : opener? ch with
             | some pc =>
               obtain ⟨cls, cl⟩ := pc
               simp only [ho] at h
-              have hgb := gb_pres VQ ts [cl] [] [] hts (by intro x hx; simp at hx) (by intro b hb; simp at hb)
+              have hgb := gb_pres (VQ q) ts [cl] [] [] hts (by intro x hx; simp at hx) (by intro b hb; simp at hb)
               cases hs : buildS (parse n) par cls (gb ts [cl] [] []).1 with
               | error e => simp [hs, bind, Except.bind] at h
               | ok s =>
-                have hvs := buildS_vtok (parse n) (fun ts' par' r hq' hr' => ih ts' par' r hq' hr') par cls _ hgb.1 s hs
+                have hvs := buildS_allTok q hlo (parse n) (fun ts' par' r hq' hr' => ih ts' par' r hq' hr') par cls _ hgb.1 s hs
                 simp only [hs, bind, Except.bind] at h
                 exact cons_ok s _ par hvs hgb.2 tree h
             | none =>
@@ -176,7 +176,7 @@ theorem parse_vtok : ∀ (n : Nat) (ts : List Token) (par : Parent) (tree : List
               by_cases hm : monadicMods.contains ch = true
               · simp only [hm, if_true] at h
                 cases ts with
-                | nil => simp at h; subst h; simp [vtokL]
+                | nil => simp at h; subst h; simp [allTokL]
                 | cons u us =>
                   simp only at h
                   cases h1 : parse n (u :: us) .mon with
@@ -187,15 +187,15 @@ theorem parse_vtok : ∀ (n : Nat) (ts : List Token) (par : Parent) (tree : List
                     cases rem with
                     | nil => simp at h
                     | cons a r =>
-                      simp only [vtokL, Bool.and_eq_true] at hrem
+                      simp only [allTokL, Bool.and_eq_true] at hrem
                       simp only at h
-                      split at h <;> (simp [pure, Except.pure] at h; subst h; simp [vtokL, vtokS, hrem.1, hrem.2])
+                      split at h <;> (simp [pure, Except.pure] at h; subst h; simp [allTokL, allTokS, hrem.1, hrem.2])
               · have hm' : monadicMods.contains ch = false := by simpa using hm
                 simp only [hm', Bool.false_eq_true, if_false] at h
                 by_cases hd : dyadicMods.contains ch = true
                 · simp only [hd, if_true] at h
                   cases ts with
-                  | nil => simp at h; subst h; simp [vtokL]
+                  | nil => simp at h; subst h; simp [allTokL]
                   | cons u us =>
                     simp only at h
                     cases h1 : parse n (u :: us) .dy with
@@ -207,15 +207,15 @@ theorem parse_vtok : ∀ (n : Nat) (ts : List Token) (par : Parent) (tree : List
                       | [], _, h => simp at h
                       | [_], _, h => simp at h
                       | a :: b :: r, hrem, h =>
-                        simp only [vtokL, Bool.and_eq_true] at hrem
+                        simp only [allTokL, Bool.and_eq_true] at hrem
                         simp only at h
-                        split at h <;> (simp [pure, Except.pure] at h; subst h; simp [vtokL, vtokS, hrem.1, hrem.2.1, hrem.2.2])
+                        split at h <;> (simp [pure, Except.pure] at h; subst h; simp [allTokL, allTokS, hrem.1, hrem.2.1, hrem.2.2])
                 · have hd' : dyadicMods.contains ch = false := by simpa using hd
                   simp only [hd', Bool.false_eq_true, if_false] at h
                   by_cases htr : triadicMods.contains ch = true
                   · simp only [htr, if_true] at h
                     cases ts with
-                    | nil => simp at h; subst h; simp [vtokL]
+                    | nil => simp at h; subst h; simp [allTokL]
                     | cons u us =>
                       simp only at h
                       cases h1 : parse n (u :: us) .tri with
@@ -228,9 +228,9 @@ theorem parse_vtok : ∀ (n : Nat) (ts : List Token) (par : Parent) (tree : List
                         | [_], _, h => simp at h
                         | [_, _], _, h => simp at h
                         | a :: b :: c :: r, hrem, h =>
-                          simp only [vtokL, Bool.and_eq_true] at hrem
+                          simp only [allTokL, Bool.and_eq_true] at hrem
                           simp [pure, Except.pure] at h; subst h
-                          simp [vtokL, vtokS, hrem.1, hrem.2.1, hrem.2.2.1, hrem.2.2.2]
+                          simp [allTokL, allTokS, hrem.1, hrem.2.1, hrem.2.2.1, hrem.2.2.2]
                   · have htr' : triadicMods.contains ch = false := by simpa using htr
                     simp only [htr', Bool.false_eq_true, if_false] at h
                     by_cases hcl : (isCloserCh ch || ch = 32 || ch = cBar) = true
@@ -238,7 +238,47 @@ theorem parse_vtok : ∀ (n : Nat) (ts : List Token) (par : Parent) (tree : List
                       exact ih ts par tree hts h
                     · have hcl' : (isCloserCh ch || ch = 32 || ch = cBar) = false := by simpa using hcl
                       simp only [hcl', Bool.false_eq_true, if_false] at h
-                      exact cons_ok (.generic t) ts par (by simp only [vtokS]; exact ht) hts tree h
+                      exact cons_ok (.generic t) ts par (by simp only [allTokS]; exact ht) hts tree h
+
+mutual
+theorem vtok_of_allTok : ∀ (s : Structure), allTokS vtokOK s = true → vtokS s = true
+  | .generic t, h => by simpa [allTokS, vtokS] using h
+  | .brk _, _ => by simp [vtokS]
+  | .recurse _, _ => by simp [vtokS]
+  | .fnCall _, _ => by simp [vtokS]
+  | .ifS bs, h => by simp only [allTokS] at h; simp only [vtokS]; exact vtokLL_of_allTok bs h
+  | .forS _ body, h => by simp only [allTokS] at h; simp only [vtokS]; exact vtokL_of_allTok body h
+  | .whileS Option.none body, h => by simp only [allTokS] at h; simp only [vtokS]; exact vtokL_of_allTok body h
+  | .whileS (some c) body, h => by
+      simp only [allTokS, Bool.and_eq_true] at h; simp only [vtokS, Bool.and_eq_true]
+      exact ⟨vtokL_of_allTok c h.1, vtokL_of_allTok body h.2⟩
+  | .fnDef _ _ body, h => by simp only [allTokS] at h; simp only [vtokS]; exact vtokL_of_allTok body h
+  | .lam _ body, h => by simp only [allTokS] at h; simp only [vtokS]; exact vtokL_of_allTok body h
+  | .lamOp _ body, h => by simp only [allTokS, Bool.and_eq_true] at h; simp only [vtokS]; exact vtokL_of_allTok body h.1
+  | .listS items, h => by simp only [allTokS] at h; simp only [vtokS]; exact vtokLL_of_allTok items h
+  | .mon _ a, h => by simp only [allTokS] at h; simp only [vtokS]; exact vtok_of_allTok a h
+  | .dy _ a b, h => by
+      simp only [allTokS, Bool.and_eq_true] at h; simp only [vtokS, Bool.and_eq_true]
+      exact ⟨vtok_of_allTok a h.1, vtok_of_allTok b h.2⟩
+  | .tri _ a b c, h => by
+      simp only [allTokS, Bool.and_eq_true] at h; simp only [vtokS, Bool.and_eq_true]
+      exact ⟨⟨vtok_of_allTok a h.1.1, vtok_of_allTok b h.1.2⟩, vtok_of_allTok c h.2⟩
+theorem vtokL_of_allTok : ∀ (l : List Structure), allTokL vtokOK l = true → vtokL l = true
+  | [], _ => by simp [vtokL]
+  | s :: r, h => by
+      simp only [allTokL, Bool.and_eq_true] at h; simp only [vtokL, Bool.and_eq_true]
+      exact ⟨vtok_of_allTok s h.1, vtokL_of_allTok r h.2⟩
+theorem vtokLL_of_allTok : ∀ (l : List (List Structure)), allTokLL vtokOK l = true → vtokLL l = true
+  | [], _ => by simp [vtokLL]
+  | s :: r, h => by
+      simp only [allTokLL, Bool.and_eq_true] at h; simp only [vtokLL, Bool.and_eq_true]
+      exact ⟨vtokL_of_allTok s h.1, vtokLL_of_allTok r h.2⟩
+end
+
+/-- the parser only puts tokens of its input into the tree: variable tokens -/
+theorem parse_vtok (n : Nat) (ts : List Token) (par : Parent) (tree : List Structure)
+    (hq : AllQ (VQ vtokOK) ts) (h : parse n ts par = .ok tree) : vtokL tree = true :=
+  vtokL_of_allTok tree (parse_allTok vtokOK (by intro k; simp [vtokOK]) n ts par tree hq h)
 
 /-- … in particular for the tokens of any source string (`lexOK`: the lexer's guarantee, `C18.lex_variable_letters`) -/
 theorem parseTop_vtok (ts : List Token) (hq : ∀ t ∈ ts, (t.kind = .vget ∨ t.kind = .vset) → ∀ c ∈ t.value, isLetter c = true)
